@@ -832,7 +832,10 @@ class KafkaClient(object):
             return KafkaCodec.decode_api_versions_response(resp)
         else:
             err = ApiVersionResponse(-1, [])
-            self._handle_api_version_update(err)
+            if self._api_versions is None:
+                # Fall back to version 0 only if no overlapping lookup has
+                # stored the broker's table in the meantime
+                self._handle_api_version_update(err)
             return err
 
     @inlineCallbacks
